@@ -31,7 +31,7 @@ META = {
     "max_jobs": 16,
 }
 LOG_LINE = re.compile(r"^\d{4}-\d{2}-\d{2} [\d:]+\s+\(\d+\) .*(runner aborted|runner terminated|aborted)", re.M)
-SERVICE_TAGS = {"VSvcCtrl": "trio", "VSvcDeco": "asyncio", "VSvcThread": "threading", "VSvcPool": "trio", "VSvcEmpty": "trio"}
+SERVICE_TAGS = {"VSvcCtrl": "trio", "VSvcDeco": "asyncio", "VSvcThread": "threading", "VSvcPool": "trio", "VSvcEmpty": "trio", "VSvcWaiter": "asyncio"}
 
 
 def plan(tier, seed):
@@ -51,7 +51,7 @@ def gen_pipeline(rnd):
         elif i == 0:
             cls = rnd.choice(["VSvcCtrl", "VSvcCtrl", "VSvcDeco", "VSvcThread", "VDeco", "LinearController"])
         else:
-            cls = rnd.choice(["VSvcDeco", "VSvcThread", "VDeco", "Standardiser", "Logger", "VSvcDeco"])
+            cls = rnd.choice(["VSvcDeco", "VSvcThread", "VDeco", "Standardiser", "Logger", "VSvcDeco", "VSvcWaiter"])
         kwargs = {}
         label = None
         if cls in SERVICE_TAGS:
@@ -75,7 +75,7 @@ def yaml_text(rnd, elems, logging, extra):
     lines.append("pipeline:")
     for cls, label, kwargs in elems:
         items = ", ".join("%s: %s" % (k, v) for k, v in kwargs.items())
-        if cls in ("VSvcCtrl", "VSvcDeco", "VSvcThread", "VSvcPool", "VSvcEmpty", "VDeco", "VPool") and rnd.random() < 0.35:
+        if cls in ("VSvcCtrl", "VSvcDeco", "VSvcThread", "VSvcPool", "VSvcEmpty", "VSvcWaiter", "VDeco", "VPool") and rnd.random() < 0.35:
             lines.append("  - {__type__: vplug.%s%s}" % (cls, (", " + items) if items else ""))
         elif items:
             lines.append("  - !%s {%s}" % (cls, items))
@@ -87,7 +87,7 @@ def yaml_text(rnd, elems, logging, extra):
 
 
 def python_text(rnd, elems):
-    imports = ["from vplug import VSvcCtrl, VSvcDeco, VSvcThread, VSvcPool, VSvcEmpty, VDeco, VPool",
+    imports = ["from vplug import VSvcCtrl, VSvcDeco, VSvcThread, VSvcPool, VSvcEmpty, VSvcWaiter, VDeco, VPool",
                "from cobald.controller.linear import LinearController", "from cobald.decorator.standardiser import Standardiser",
                "from cobald.decorator.logger import Logger"]
     parts = []
@@ -115,7 +115,10 @@ def gen_case(rnd, spec):
             "logging": fmt == "yaml" and rnd.random() < 0.35, "extra": fmt == "yaml" and rnd.random() < 0.25,
             "signal_after": rnd.choice([0.2, 0.4, 0.7, 1.0]), "defect": None, "missing_file": False, "slow_init": slow}
     if kind == "failing":
-        victims = [e for e in elems if e[1]]
+        victims = [e for e in elems if e[1] and e[0] != "VSvcWaiter"]  # the waiter never fails by itself
+        if not victims:
+            elems[-1] = ["VSvcPool", "svc%d" % (len(elems) - 1), {"label": "svc%d" % (len(elems) - 1), "period": 0.05}]
+            victims = [elems[-1]]
         v = rnd.choice(victims)
         v[2]["fail_after"] = rnd.choice([0, 1, 3, 6])
         v[2]["fail_how"] = rnd.choice(["raise", "return"])
@@ -204,7 +207,13 @@ def execute(case, result):
             at_signal = [e for e in run.events[: run.events_at_signal] if e["kind"] == "beat" and e["label"] == lb]
             recent = [e for e in at_signal if e["n"] >= 4]
             late = [e for e in run.events if e["kind"] == "beat" and e["label"] == lb and e["n"] > 4]
-            if not recent or not late:
+            waiter = any(e[0] == "VSvcWaiter" and e[1] == lb for e in case["elems"])
+            if waiter:
+                ended_early = [e for e in run.events[: run.events_at_signal] if e["kind"] == "waiter-ended" and e["label"] == lb]
+                if ended_early:
+                    bad("service %s (waiting on a private future) ended before the daemon was stopped" % lb)
+                result.count("private_waiter_services_checked")
+            elif not recent or not late:
                 bad("service %s was not running any more when the daemon was stopped (beats %d)" % (lb, len(beats)))
             if flavour[lb] != "threading" and not run.of("cancelled", lb):
                 bad("service %s (%s) was not cancelled on SIGINT" % (lb, flavour[lb]))
@@ -245,7 +254,7 @@ def run_shard(spec):
 
 def finish(total, tier):
     need = ["daemons_valid", "daemons_invalid", "daemons_failing", "configs_yaml", "configs_python", "services_checked_trio",
-            "services_checked_asyncio", "services_checked_threading", "failing_services_after_start", "valid_with_logging_section", "falsy_services_checked"]
+            "services_checked_asyncio", "services_checked_threading", "failing_services_after_start", "valid_with_logging_section", "falsy_services_checked", "private_waiter_services_checked"]
     for name in need:
         if not total.counters.get(name) and not total.violations:
             total.inconc("monitor never observed: " + name)
